@@ -9,6 +9,8 @@ NOTE = ("Trusted base: go/types, go/ssa, the VTA/CHA call graph (x/tools v0.29.0
         "it does not execute parsley code.")
 
 CLAIMED = {
+ "C09": dict(ref="§4 C09", technique="bounds obligations discharged by an in-house linear-facts abstract domain: dominating guards + type invariant File.len=len(File.data) + one-step loop induction + library contracts, refuted by Fourier-Motzkin elimination; who-may-write rule for file content; linear-normal-form comparison for Remaining/IsEOF",
+   text="Static bounds analysis deciding, for all contents, offsets and positions in the documented domain, that every index/slice expression of the text reader is in bounds, that returned positions are the original one on mismatch or lie within the file, that file content is write-once, that regexps are anchored as a whole and cached under their own key, and that Remaining/IsEOF are the byte-length linear forms. Agreement of WHAT each primitive matches with a byte-level specification is not decided."),
  "C10": dict(ref="§4 C10", technique="table agreement between the statement's mode table and SkipWhitespaces' return structure (dominating mode/run conditions, error variable, position kind), constant-set rule for the whitespace alphabet, sibling agreement over the SetReaderPos implementations, path-sensitive return analysis of LeftTrim, dominance rule in Parse",
    text="Static rules deciding, for all whitespace runs and mode assignments, that the code's mode table equals the statement's (which mode fails, with which error, at which position, under which run condition; exhaustive over the declared modes), that the skipped alphabet and the line-break subset are exactly those stated, that LeftTrim returns the sub-parser's own node called right after the run, that right-trimming moves only the end (per node, from its own end) and that whitespace errors win in Parse. Transparency of permitted whitespace as a relation between two parses is not decided."),
  "C06": dict(ref="§4 C06", technique="error-discipline rule (Engler-style) over all nested parser calls: forward value flow of the error result, guard-vocabulary check of the conditions under which it is kept, sink reachability (returned error / Context.SetError), loop-carried accumulator dependence; provenance rule for error positions",
